@@ -7,6 +7,7 @@
   compares time stamps exactly (DESIGN.md §12).
 -/
 import ZvtVerif.Proofs.ClientLemmas
+import ZvtVerif.Generated
 namespace Zvt.C10
 open Zvt
 
@@ -36,6 +37,17 @@ theorem exchange_bounded {σ ρ : Type} (cfg : Cfg) (seqName : String) (cmd : By
     (step : σ → Item → Step σ ρ) (w : World) (s : σ) :
     (runOp cfg seqName cmd timeout step w s).2.now ≤ w.now + ATTEMPTS * (THROTTLE + TIMEOUT + timeout) :=
   runOp_now cfg seqName cmd timeout step w s
+
+def constOf (k : String) : Option String := (Generated.consts.find? (·.1 == k)).map (·.2)
+
+/-- **The model's retry budget is the source's**: the constants the theorems above are stated with are the ones
+the translator reads from the source on this run — `TIMEOUT` in stream.rs, and the `throttle(2 s).take(20)` retry
+streams of `ResetSequence::into_stream` and of `Feig::read_card`. -/
+theorem retry_constants_match_source :
+    constOf "TIMEOUT" = some "Duration::from_secs(60)" ∧ TIMEOUT = 60 ∧
+    constOf "RETRY[into_stream]" = some "throttle=std::time::Duration::from_secs(2) take=20" ∧
+    constOf "RETRY[read_card]" = some "throttle=Duration::from_secs(2) take=20" ∧ THROTTLE = 2 ∧ ATTEMPTS = 20 := by
+  decide +kernel
 
 /-- the budgets with the constants of the source: 20 × (2 + 60 + 60) = 2440 s for ordinary exchanges. -/
 theorem budget_default : ATTEMPTS * (THROTTLE + TIMEOUT + TIMEOUT) = 2440 := by decide
